@@ -6,6 +6,13 @@
 pub assume_specification<T>[<T as core::convert::From<T>>::from](t: T) -> (r: T)
     ensures r == t;
 
+// Result::or_else: Ok is passed through, on Err the function decides
+pub assume_specification<T, E, F, O: FnOnce(E) -> Result<T, F>>[Result::<T, E>::or_else](r: Result<T, E>, op: O) -> (res: Result<T, F>)
+    requires r matches Err(e) ==> op.requires((e,)),
+    ensures
+        r matches Ok(t) ==> res == Ok::<T, F>(t),
+        r matches Err(e) ==> op.ensures((e,), res);
+
 pub uninterp spec fn iter_items<T, I: IntoIterator<Item = T>>(it: I) -> Seq<T>;
 pub assume_specification<T, A: core::alloc::Allocator, I: IntoIterator<Item = T>>[<Vec<T, A> as core::iter::Extend<T>>::extend::<I>](v: &mut Vec<T, A>, it: I)
     ensures final(v)@ =~= old(v)@ + iter_items::<T, I>(it);
